@@ -365,6 +365,34 @@ func runC15(w *World, r *Report) {
 			"a source/target path that descends into a scalar (or other non-container) type can pass the static check ("+wit+"): Compile accepts the mapping and the run panics in takeOne/assignOne instead of the mapping being rejected")
 	}
 
+	// ---- a source field reached at request time is handed on only if it can be read through reflection: the static check
+	// sees unexported fields only on statically typed paths — below an interface-typed value (a map[string]any entry) the
+	// request-time test is the only one, and Value.Interface() on an unexported field panics
+	r.Rule("C15.source-field-readable", "checkAndExtractFromField returns a field value only under CanInterface() == true", 1)
+	{
+		f := w.Fn("compose", "checkAndExtractFromField")
+		n := 0
+		instrs(f, func(in ssa.Instruction) {
+			ret, ok := in.(*ssa.Return)
+			if !ok || len(ret.Results) != 2 || !isNilConst(ret.Results[1]) {
+				return
+			}
+			n++
+			v := ret.Results[0]
+			guarded := hasGuard(ret.Block(), func(g guard) bool {
+				c, ok := g.cond.(*ssa.Call)
+				return ok && g.pol && calleeFullName(c) == "(reflect.Value).CanInterface" && c.Call.Args[0] == v
+			})
+			r.Check(guarded, "C15.source-field-readable", fmt.Sprintf("checkAndExtractFromField: success return #%d", n), ret.Pos(), "guarded by f.CanInterface()", "a field value is returned without the CanInterface() test: for a source path that goes through an interface (the values of a map[string]any) and meets, at request time, a struct with an unexported field of that name, the later Value.Interface() panics — out of Invoke and Transform — where the mapping must report an error")
+		})
+		if n == 0 {
+			r.Fail("C15.source-field-readable", "checkAndExtractFromField: success return", f.Pos(), "no (value, nil) return found")
+		}
+	}
+
+	r.Rule("C15.static-values-per-run", "the stream form of a node's static values is created inside the per-run handler, not once at compile time (shared with C04.no-compile-time-stream): a pipe-backed stream is single-use, so a second stream-mode run of the compiled workflow would lack the values", 1)
+	noCompileTimeStream(w, r, "C15.static-values-per-run")
+
 	// ---- a map entry held by value is a copy: it is stored back after the assignment below it
 	r.Rule("C15.entry-stored-back", "assignOne: the pending (map, key, entry) triple is kept until the assignment is done and the ENTRY is what is stored back under the key", 1)
 	entryStoredBackCheck(w, r, "C15.entry-stored-back")
